@@ -123,7 +123,20 @@ impl Sink {
       write!(s, "\n    {}", json_str(x)).unwrap();
     }
     s.push_str("\n  ],\n  \"impl_failures\": [");
-    for (i, x) in self.impl_failures.iter().take(50).enumerate() {
+    // at most 5 examples per failure class (class = text up to the first ':'), so that one frequent class
+    // cannot hide another one
+    let mut per_class: BTreeMap<String, u32> = BTreeMap::new();
+    let kept: Vec<&String> = self
+      .impl_failures
+      .iter()
+      .filter(|x| {
+        let class = x.split(':').next().unwrap_or("").to_string();
+        let n = per_class.entry(class).or_insert(0);
+        *n += 1;
+        *n <= 5
+      })
+      .collect();
+    for (i, x) in kept.iter().take(200).enumerate() {
       if i > 0 {
         s.push(',');
       }
